@@ -331,6 +331,10 @@ def e2e_sanity(ctx):
     cases += [dict(id=4000 + m, mask=m, bare=True, latin1=True) for m in range(0, 512, step_cfg)]
     # configuration that changes what porcelain commands print (status.showUntrackedFiles=no …), not what the repository holds
     cases += [dict(id=5000 + m, mask=m, bare=False, quietstatus=True) for m in range(0, 512, step_bare)]
+    # a stash whose reflog was expired (refs/stash still holds the work; `git stash list` is empty), with and without a gc
+    cases += [dict(id=6000 + m, mask=m, bare=False, stash_expired=1 + (m // step_bare) % 2) for m in range(0, 512, step_bare) if m >> e2e.VIOLATIONS.index('stash') & 1]
+    # --sensitive on a clone with an origin: a refusal must come before the mirror fetch touches any ref
+    cases += [dict(id=7000 + m, mask=m, bare=False, sensitive=True) for m in range(0, 512, step_bare)]
     results = e2e.run_pool(e2e.sanity_case, cases)
     dist, mine = {}, []
     for r in results:
@@ -342,7 +346,7 @@ def e2e_sanity(ctx):
         for (p, msg) in r['failures']:
             mine.append((r['id'], msg))
     ctx.parts.append(dict(name='e2e(sanity)', evaluations=len(cases), distinct_nontrivial=dist.get('refused', 0),
-                          rule='exhaustive: every subset of the nine documented freshness violations (unstaged, staged, untracked, stash, extra reflog entries, extra worktree, extra remote, unpushed branch, loose object) applied to a fresh non-bare clone (2^9 = 512 states), a sample of the subsets on a fresh bare clone (where a linked worktree, reflog entries, an extra remote and loose objects still apply), with core.ignorecase/precomposeunicode set, with a committer name that is not valid UTF-8 (Latin-1 bytes in the reflog files), and with status.showUntrackedFiles=no / status.relativePaths=false / diff.ignoreSubmodules=all in the repository configuration; a third of the refused runs are repeated with the identical command and must be refused again; the repository facts are gathered independently with plumbing, the Lean model of the pre-flight predicts accept/refuse and which error, and the real CLI (without --force) is compared with it; a refused run must leave refs, HEAD, status, config, remotes, objects, work tree and every file under .git outside filter-repo/ unchanged; --force is checked to bypass. Non-trivial: the run is refused.',
+                          rule='exhaustive: every subset of the nine documented freshness violations (unstaged, staged, untracked, stash, extra reflog entries, extra worktree, extra remote, unpushed branch, loose object) applied to a fresh non-bare clone (2^9 = 512 states), a sample of the subsets on a fresh bare clone (where a linked worktree, reflog entries, an extra remote and loose objects still apply), with core.ignorecase/precomposeunicode set, with a committer name that is not valid UTF-8 (Latin-1 bytes in the reflog files), with status.showUntrackedFiles=no / status.relativePaths=false / diff.ignoreSubmodules=all in the repository configuration, with a stash whose reflog was expired (and optionally a gc afterwards), and with --sensitive on the clone (the origin has a branch the clone does not have locally, so a mirror fetch would be visible); a third of the refused runs are repeated with the identical command and must be refused again; the repository facts are gathered independently with plumbing, the Lean model of the pre-flight predicts accept/refuse and which error, and the real CLI (without --force) is compared with it; a refused run must leave refs, HEAD, status, config, remotes, objects, work tree and every file under .git outside filter-repo/ unchanged; --force is checked to bypass. Non-trivial: the run is refused.',
                           samples=[{'mask': cases[5]['mask'], 'violations': [v for i, v in enumerate(e2e.VIOLATIONS) if cases[5]['mask'] >> i & 1]}],
                           distribution=dist, wall_s=round(time.time() - t0, 1), exhaustive=True, impl_property_failures_for_this_property=len(mine)))
     for cid, msg in mine[:3]:
